@@ -115,22 +115,24 @@ class FrameReader:
         header, buffer = await self._read_header()
         frame_length, recipient, sender, econet_type, econet_version = header
 
-        if recipient not in (DeviceType.ECONET, DeviceType.ALL):
-            # Not an intended recipient, ignore the frame.
-            return None
-
-        if not is_known_device_type(sender):
-            raise UnknownDeviceError(f"Unknown sender type ({sender})")
-
         if frame_length > MAX_FRAME_LENGTH or frame_length < MIN_FRAME_LENGTH:
             raise ReadError(f"Unexpected frame length ({frame_length})")
 
+        # Always consume the whole frame, even if it'll be skipped, so that
+        # its payload can't be mistaken for the start of the next frame.
         try:
             buffer += await self._reader.readexactly(frame_length - HEADER_SIZE)
         except IncompleteReadError as e:
             raise ReadError(
                 f"Got incomplete frame, while trying to read {e.expected} bytes"
             ) from e
+
+        if recipient not in (DeviceType.ECONET, DeviceType.ALL):
+            # Not an intended recipient, ignore the frame.
+            return None
+
+        if not is_known_device_type(sender):
+            raise UnknownDeviceError(f"Unknown sender type ({sender})")
 
         if (checksum := bcc(buffer[:-2])) != buffer[-2]:
             raise ChecksumError(
